@@ -10,7 +10,7 @@
    (The code as pinned violated the first and third sentence - an Excluded start bound on an
    absent key, an Included end bound of new_from_position_with_bounds; both were repaired
    in /repo and the model follows the repaired code; the witnesses are kept in corpus/C03.)
-   OBLIGATIONS: C03_range_is_filter C03_items_range_half_open C03_from_position_honours_end_bound C03_nonvacuous *)
+   OBLIGATIONS: C03_range_is_filter C03_items_range_half_open C03_from_position_honours_end_bound C03_nonvacuous C03_legacy_refuted *)
 From BPT Require Import Common.Base Common.AMap Rust.Arena Rust.Tree Rust.Heap Rust.Readers Rust.Run
      Rust.InvDefs Rust.Repr Rust.Spec Rust.ReachDefs Rust.Walk Rust.ReadersRange Rust.Reach Props.Reachable.
 
@@ -54,3 +54,11 @@ Proof.
 Qed.
 
 Definition C03_nonvacuous := ReachExamples.ex_agree.
+
+From BPT Require Import Legacy.RustLegacy.
+(* the code as pinned violated this property twice (both repaired in /repo): an Excluded start
+   bound on an absent key dropped the first in-range entry; an Included end bound of
+   new_from_position_with_bounds was treated as exclusive. Pre-repair definitions and
+   witnesses (evaluated by vm_compute), next to the repaired results: *)
+Definition C03_legacy_refuted :=
+  (d1_refuted, d2_refuted, range_excluded_absent_refuted, from_position_included_refuted).
